@@ -137,6 +137,11 @@ func genC11(tier string, run int, r *simcore.Rand) *harness.Plan {
 	p := &harness.Plan{Mode: "encrypt", Config: harness.MustJSON(cfg), Bubble: true}
 	p.LockYield = []int{0, 0, 50}[r.Intn(3)]
 	p.Sticky = []int{0, 700}[r.Intn(2)]
+	if compaction && r.Bool(0.5) {
+		// let the background compaction run far ahead of (or behind) the
+		// receive that started it
+		p.Pct, p.PctHorizon = r.Range(1, 3), 4000
+	}
 	for _, op := range ops {
 		p.Ops = append(p.Ops, harness.MustJSON(op))
 	}
